@@ -342,3 +342,8 @@ def run(ctx):
     rule_ab(ctx)
     rule_c(ctx)
     rule_d(ctx)
+    # a physical box is turned into a voxel box by CoordinateSystem.voxel / coordinate: the placement clauses rest on those maps
+    from . import c01
+    from .common import shared
+
+    shared(ctx, "C02.b", c01.rule_b, why="subregion(CoordinateArray) and the sub-image's origin go through CoordinateSystem.voxel / coordinate")
